@@ -84,7 +84,12 @@ func c05Scenario(v2019 bool, id uint16, N int, order []int, bodies [][]byte, dup
 			fs = append(fs, hookFrame(v2019, id, 900, true, uint16(N), bad, []byte{9, 9, 9}))
 		}
 		if idx == plainAt {
-			fs = append(fs, hookFrame(v2019, 0x0002, 901, false, 0, 0, nil))
+			if (plainAt+N)%2 == 0 {
+				fs = append(fs, hookFrame(v2019, 0x0002, 901, false, 0, 0, nil))
+			} else {
+				// an ordinary, unfragmented message with the SAME message ID as the transfer in progress
+				fs = append(fs, hookFrame(v2019, id, 901, false, 0, 0, []byte{0x41, 0x42, byte(0x43 + idx)}))
+			}
 		}
 		seen[k] = true
 		fs = append(fs, hookFrame(v2019, id, uint16(100+k), true, uint16(N), uint16(k), bodies[k-1]))
@@ -96,7 +101,7 @@ func c05Scenario(v2019 bool, id uint16, N int, order []int, bodies [][]byte, dup
 }
 
 func c05Worker(c *core.Collector, x *Ctx) {
-	c.Rule = "totals N=1..Nmax with EVERY permutation of packets 2..N after packet 1 x {escape-free, escaped} x {equal, unequal lengths} x {plain, duplicate of each later packet at every position, unfragmented message interleaved at every position, " +
+	c.Rule = "totals N=1..Nmax with EVERY permutation of packets 2..N after packet 1 x {escape-free, escaped} x {equal, unequal lengths} x {plain, duplicate of each later packet at every position, unfragmented message (a heartbeat, or a message with the transfer's own ID) interleaved at every position, " +
 		"impossible package numbers 0/N+1/65535 at every position} x segmentations {one packet per read, pairs, all coalesced, random cuts}; two interleaved transfers of different IDs at every merge pattern (N<=3); random N<=40. " +
 		"non-trivial = N>=2; distinct by hash of the reads"
 	cats := map[string]bool{"reasm": true, "crash": true}
